@@ -36,6 +36,11 @@ CHECKS = {
             "13 ignore-list pairs x anonymisation off/on/switched on by API x 5 persistent-client kinds x ignore flags x ANY-refusal, each x 43 requests (name spellings, IPv4/IPv6/4-in-6 sources, with/without ClientID); after every request the memory buffer (API), the flushed file, the API over the file and /control/stats are inspected and cleared. Restart scenarios check that the API hides entries recorded earlier whose name/client is ignored now, including several ClientID clients behind one address.",
             "ignore-rule matching delegated to urlfilter; a 4-in-6 source is the same client as its IPv4 form; client-flag hiding is judged with anonymisation off (anonymised entries cannot be attributed).",
             "DESIGN.md §4 C08", "E1-stateless"),
+    "C10": ("model_checking",
+            "explicit-state breadth-first search over DHCP message / static-lease / expiry / restart histories executed on the real v4Server with the real database wiring, level-synchronous across 16 processes with global state deduplication, lease-table invariants and a tiny allocator reference model",
+            "Subnet /29 with a 3-address pool, 3 clients (thorough: 4 clients, hostnames, requested addresses), 92 operations (DISCOVER, REQUEST selecting/init-reboot/renew, DECLINE, RELEASE, static add/update/remove inside/outside pool/gateway/out of subnet, 2 h clock advance, restart), depth 4 (quick) / 6 (thorough); after every transition: one lease per address and client, dynamic leases inside the pool, list = hostname index = IP index = bitset, every OFFER/ACK against the model, leases.json = memory, restart preserves table and DNS answers; every state is also probed with a DISCOVER from a new client (offer iff a pool address is free).",
+            "a static add legitimately revokes dynamic leases of the same client or address (documented dnsmasq-like behaviour); ICMP probing off; virtual clock.",
+            "DESIGN.md §4 C10", "E1-BFS"),
     "C11": ("exploration",
             "exhaustive enumeration of request shapes against every pattern of the real mux built by the real registration code in the real start-up order, plus a go/ast inventory of all registrations",
             "Both registration orders (boot: DHCP routes before the user list exists; install wizard), every pattern (79/83) x path spellings x 7 methods x content types x bodies (incl. chunked without length) x 6 credential kinds; without valid credentials the response is 403/redirect, the probe/handler did not run and config, sessions, users and work-dir files are byte-identical; with credentials wrong method => 405 and non-JSON body => 415; expired sessions are not revived. Static part: every Handle/HandleFunc/httpRegister call in the shipped packages is in the mux, wrapped, and public only if in the fixed public set.",
